@@ -342,7 +342,7 @@ def topostress(spec):
     rng = random.Random(spec["seed"])
     p = spec.get("p", {})
     scheme = p.get("scheme") or rng.choice(["distinct", "blank_ter", "repeated_oxt", "merged_oxt", "many", "single",
-                                            "mixed_na", "het_tail"])
+                                            "mixed_na", "het_tail", "adjacent_no_ter"])
     ff = spec["ff"]
     nch = p.get("nch") or {"many": rng.randint(20, 70), "single": rng.randint(2, 5)}.get(scheme, rng.randint(2, 5))
     chains, kinds = [], []
@@ -376,6 +376,13 @@ def topostress(spec):
         # one chain id, no TER between the pieces: chain ends are visible only through OXT
         for c, ch in enumerate(chains):
             entries.append({"id": "A", "start": 1 + 20 * c, "residues": ch, "no_ter": c < len(chains) - 1})
+    elif scheme == "adjacent_no_ter":
+        # different chain ids, no TER between the chains (TER-less files, and every mmCIF file), and the last residue
+        # of a chain carries the same number as the first residue of the next one
+        start = 1
+        for c, ch in enumerate(chains):
+            entries.append({"id": CHAIN_IDS[c], "start": start, "residues": ch, "no_ter": c < len(chains) - 1})
+            start = start + len(ch) - 1
     elif scheme == "many":
         for c, ch in enumerate(chains):
             entries.append({"id": CHAIN_IDS[c % len(CHAIN_IDS)], "start": 1 + 10 * (c // len(CHAIN_IDS)), "residues": ch})
@@ -593,6 +600,32 @@ def materialise(spec):
         out["text"] = pdbfmt.to_text(out["items"])
     if p.get("icode_prob") and random.Random(spec["seed"] + 17).random() < p["icode_prob"]:
         apply_icodes(out, random.Random(spec["seed"] + 18))
+    if p.get("shuffle_atoms_prob") and "items" in out and random.Random(spec["seed"] + 24).random() < p["shuffle_atoms_prob"]:
+        # the atoms of a residue in an unusual order (children before parents): legal, order carries no meaning
+        r25 = random.Random(spec["seed"] + 25)
+        items2, block, key = [], [], None
+        def flush():
+            if block:
+                if r25.random() < 0.6:
+                    (block.reverse() if r25.random() < 0.5 else r25.shuffle(block))
+                items2.extend(block)
+                del block[:]
+        for it in out["items"]:
+            if isinstance(it, dict):
+                k = (it["chain"], it["resi"], it["icode"], it["resn"])
+                if k != key:
+                    flush()
+                    key = k
+                block.append(it)
+            else:
+                flush()
+                key = None
+                items2.append(it)
+        flush()
+        out["items"][:] = items2
+        pdbfmt.renumber(out["items"])
+        out["text"] = pdbfmt.to_text(out["items"])
+        out.setdefault("meta", {})["atom_order_shuffled"] = True
     if p.get("offset_prob") and "items" in out and random.Random(spec["seed"] + 22).random() < p["offset_prob"]:
         # the whole structure far from the origin: coordinates that fill their eight columns (<= -100, >= 1000)
         r22 = random.Random(spec["seed"] + 23)
